@@ -145,7 +145,7 @@ def direct_rdm(data, events, method):
     return np.array(out)
 
 
-def run_rdms(ctx, chunked):
+def run_rdms(ctx, chunked, dtype='float'):
     rng = ctx.rng
     if chunked:
         shape, radius, thr = (11, 11, 11), 1.5, 0.4
@@ -164,9 +164,12 @@ def run_rdms(ctx, chunked):
     if rng.integers(2):
         events = np.array([f'ev{c}' for c in events])
     data = rng.standard_normal((len(events), int(np.prod(shape))))
+    if dtype == 'int':
+        data = rng.integers(-20, 21, size=data.shape).astype(np.int64)     # e.g. raw scanner units / counts
     method = gen.pick(rng, ['correlation', 'euclidean'])
     check = 'rdm_chunked' if chunked else 'rdm_small'
-    sig = dict(what=check, method=method, chunked=chunked, n_centers='>1000' if len(centers) > 1000 else '<=1000')
+    sig = dict(what=check, method=method, chunked=chunked, n_centers='>1000' if len(centers) > 1000 else '<=1000',
+               dtype=dtype)
     wit = lambda **k: dict(shape=shape, radius=radius, threshold=thr, events=events, method=method,  # noqa: E731
                            n_centers=len(centers), **k)
     if chunked and len(centers) <= 1000:
@@ -185,7 +188,7 @@ def run_rdms(ctx, chunked):
         nb = np.asarray(neighbors[i])
         if method == 'correlation' and len(nb) < 3:
             continue
-        want = direct_rdm(data[:, nb], events, method)
+        want = direct_rdm(data[:, nb].astype(float), events, method)
         ctx.count('centres_enumerated')
         if np.any(np.isnan(want)):
             continue
@@ -204,18 +207,26 @@ def slow_eval(models, x, method='corr', theta=None):
     t0 = time.monotonic()
     time.sleep(delay)
     from rsatoolbox.rdm import compare
-    val = float(np.mean(compare(models[0].predict_rdm(), x, method)))
+    val = float(np.mean(compare(models[0].predict_rdm(theta[0] if theta is not None else None), x, method)))
     return dict(voxel=vox, value=val, pid=os.getpid(), start=t0, end=time.monotonic())
 
 
-def run_schedules(ctx):
+def run_schedules(ctx, weighted=False):
     from rsatoolbox.model import ModelFixed
     rng = ctx.rng
     n = int(rng.integers(10, 17))
     n_cond = 5
     vecs = gen.rdm_vectors(rng, n, n_cond, 'pos')
     vox = [int(v) for v in rng.permutation(200)[:n]]
-    model = ModelFixed('m', RDMs(gen.rdm_vectors(rng, 1, n_cond, 'pos')))
+    from rsatoolbox.model import ModelWeighted
+    if weighted:     # explicit parameters must reach the evaluation function for every n_jobs
+        model = ModelWeighted('w', RDMs(gen.rdm_vectors(rng, 2, n_cond, 'pos')))
+        theta = [np.array([1.0, 0.0]) if rng.integers(2) else rng.uniform(0.1, 1, size=2)]
+        direct = [float(np.mean(__import__('rsatoolbox').rdm.compare(model.predict_rdm(theta[0]), RDMs(v.reshape(1, -1)),
+                                                                      'corr'))) for v in vecs]
+    else:
+        model = ModelFixed('m', RDMs(gen.rdm_vectors(rng, 1, n_cond, 'pos')))
+        theta, direct = None, None
     reordered_seen = False
     orders = []
     for attempt, scale in enumerate((0.004, 0.012, 0.03)):
@@ -226,7 +237,7 @@ def run_schedules(ctx):
             sig = dict(what='parallel_order', n_jobs=n_jobs)
             wit = lambda **k: dict(n=n, voxels=vox, n_jobs=n_jobs, **k)  # noqa: E731
             try:
-                res = SL.evaluate_models_searchlight(sl, [model], slow_eval, method='corr', n_jobs=n_jobs)
+                res = SL.evaluate_models_searchlight(sl, [model], slow_eval, method='corr', theta=theta, n_jobs=n_jobs)
             except Exception as exc:
                 ctx.fail('parallel_order', dict(sig, what='raised', exception=type(exc).__name__), repr(exc), wit())
                 return
@@ -234,6 +245,10 @@ def run_schedules(ctx):
             if len(res) != n or [r['voxel'] for r in res] != vox:
                 ctx.fail('parallel_order', dict(sig, what='result_order'), f'results belong to centres '
                          f'{[r["voxel"] for r in res]}, expected centre order {vox}', wit())
+                return
+            if direct is not None and not close(np.array([r['value'] for r in res]), np.array(direct), 1e-12, 1e-14):
+                ctx.fail('parallel_order', dict(sig, what='theta_not_forwarded'), f'n_jobs={n_jobs}: values are not those of '
+                         f'the model at the parameters passed as theta', wit(theta=theta))
                 return
             if base is None:
                 base = [r['value'] for r in res]
@@ -258,9 +273,13 @@ def run(ctx):
         if ctx.out_of_time():
             break
         run_rdms(ctx, False)
+    for it in range(ctx.n(4, 20)):
+        run_rdms(ctx, False, dtype='int')
     if ctx.shard == 0:
-        run_rdms(ctx, True)
-        run_schedules(ctx)
+        run_rdms(ctx, True, dtype=gen.pick(ctx.rng, ['float', 'int']))
+        run_rdms(ctx, True, dtype='int')
+        run_schedules(ctx, weighted=False)
+        run_schedules(ctx, weighted=True)
     else:
         ctx.count('check:rdm_chunked')
         ctx.count('check:parallel_order')
